@@ -51,6 +51,7 @@ KindsMask == { [uo |-> FALSE, lossy |-> FALSE, masked |-> TRUE, inc |-> FALSE], 
 \* two subscribers of which one may carry an include predicate ("the value is odd")
 KindsInc == { [uo |-> FALSE, lossy |-> FALSE, masked |-> FALSE, inc |-> TRUE], [uo |-> FALSE, lossy |-> FALSE, masked |-> FALSE, inc |-> FALSE],
               [uo |-> TRUE, lossy |-> FALSE, masked |-> FALSE, inc |-> TRUE] }
+IncStores == { [i \in {1} |-> Absent], [i \in {1} |-> 1], [i \in {1} |-> 2] }
 IncPrograms == { Set(1, 1), Set(1, 2), Upsert(1, 3), IncUp(1, 1), Del(1) }
 Kinds == { [uo |-> FALSE, lossy |-> FALSE, masked |-> FALSE, inc |-> FALSE], [uo |-> TRUE, lossy |-> FALSE, masked |-> FALSE, inc |-> FALSE] }
 KindsLossy == { [uo |-> FALSE, lossy |-> TRUE, masked |-> FALSE, inc |-> FALSE], [uo |-> TRUE, lossy |-> TRUE, masked |-> FALSE, inc |-> FALSE], [uo |-> FALSE, lossy |-> FALSE, masked |-> FALSE, inc |-> FALSE] }
